@@ -35,6 +35,7 @@ Definition gate_stage (t : tree) (g : globals) (cb : callback) (o : popts) (path
           if sec_nolinks (g_sec g) && is_link n then GEarly e
           else if match sec_owner (g_sec g) with Some u => negb (node_uid n =? u) | None => false end then GEarly e
           else if match sec_group (g_sec g) with Some u => negb (node_gid n =? u) | None => false end then GEarly e
+          else if match perm_refusal (g_sec g) t path n with Some _ => true | None => false end then GEarly e
           else if match cb with Some f => negb (f path) | None => false end then GEarly e
           else GParse e
       end
